@@ -42,6 +42,15 @@ type c18Case struct {
 }
 
 var c18Strings = []string{"x", "y", "a b", `q"uote`, `back\slash`, "amp&eq=1", "pct%41", "plus+", "é", "sl/ash", "semi;colon", "hash#", "tab\tnl\n."}
+// nested argument shapes (every encoding must carry them unchanged)
+var c18Shapes = []interface{}{
+	A{A{"home", M{"by": "bike"}}},
+	M{"m": M{"l": A{M{"x": 1.0}, A{M{"y": "z"}}}}},
+	A{A{}, A{A{"deep"}}},
+	A{M{"a": A{A{M{"b": A{"c"}}}}}},
+	M{},
+}
+
 var c18Ids = []string{"f1", "f2", "r1", `i"d`, "id with space", "pct%2F", "é"}
 
 var c18URIs = map[string]string{
@@ -67,7 +76,11 @@ func genC18(t *rapid.T) c18Case {
 		p := M{"location": rapid.SampledFrom([]string{"here", "here", "here", "loc two"}).Draw(t, l+".loc")}
 		switch op {
 		case "addFact":
-			p["fact"] = M{"k": str(l + ".v"), "n": float64(rapid.IntRange(0, 2).Draw(t, l+".n"))}
+			f := M{"k": str(l + ".v"), "n": float64(rapid.IntRange(0, 2).Draw(t, l+".n"))}
+			if rapid.IntRange(0, 2).Draw(t, l+".shape?") == 0 {
+				f["s"] = gen.DeepCopy(rapid.SampledFrom(c18Shapes).Draw(t, l+".shape"))
+			}
+			p["fact"] = f
 			if rapid.IntRange(0, 3).Draw(t, l+".id?") != 0 {
 				p["id"] = id(l + ".id")
 			}
@@ -92,7 +105,11 @@ func genC18(t *rapid.T) c18Case {
 				p["id"] = id(l + ".id")
 			}
 		case "ingest":
-			p["event"] = M{"e": str(l + ".e")}
+			ev := M{"e": str(l + ".e")}
+			if rapid.IntRange(0, 2).Draw(t, l+".shape?") == 0 {
+				ev["s"] = gen.DeepCopy(rapid.SampledFrom(c18Shapes).Draw(t, l+".shape"))
+			}
+			p["event"] = ev
 		case "setParents":
 			js, _ := json.Marshal([]string{"loc two"})
 			p["set"] = string(js)
